@@ -21,8 +21,10 @@ import (
 	"fmt"
 	"io"
 	"math"
+	"slices"
 	"strconv"
 
+	"golang.org/x/exp/maps"
 	"seehuhn.de/go/postscript/psenc"
 )
 
@@ -666,7 +668,16 @@ func bForall(intp *Interpreter) error {
 		}
 	case Dict:
 		intp.Stack = intp.Stack[:len(intp.Stack)-2]
-		for key, val := range obj {
+		// The order of enumeration is not specified by the language, but
+		// it must not differ from run to run.
+		keys := maps.Keys(obj)
+		slices.Sort(keys)
+		for _, key := range keys {
+			val, ok := obj[key]
+			if !ok {
+				// removed by the procedure in the meantime
+				continue
+			}
 			intp.Stack = append(intp.Stack, key, val)
 			err := intp.executeOne(proc, true)
 			if err == errExit {
